@@ -304,7 +304,58 @@ def run_dirty(prog, tier, repo):
                     mut_comps.add(ts[-1])
                 else:
                     whole = True
-            if dirty is None or (mut_comps <= dirty):
+            incremental_problem = None
+            if dirty is None:
+                # not an iterator chain over the request: accept only a set that starts empty and receives one insert per
+                # mutated key on every path through the mutating loop iteration (a filtered dirty set skips dependants)
+                from ..cfg import def_sites
+                defs = [d for d in def_sites(b).get(r, []) if not b.blocks[d[0]].cleanup] if r is not None else []
+                # look through `.clone()` of the set
+                if len(defs) == 1 and defs[0][1] == 'term' and (callee(defs[0][2])[1] or '').split('::')[-1] == 'clone' and defs[0][2][3]:
+                    r0, _ = operand_root(b, defs[0][2][3][0])
+                    if r0 is not None:
+                        r = r0
+                        closures = _chain_closures(prog, b, r)
+                        if closures:
+                            dirty = set()
+                            for c in closures:
+                                dirty |= _tuple_components_read(prog, c)
+                        defs = [d for d in def_sites(b).get(r, []) if not b.blocks[d[0]].cleanup]
+            if dirty is None:
+                starts_empty = any(d[1] == 'term' and (callee(d[2])[1] or '').endswith(('HashSet::<T>::new', 'HashSet::<T, S>::default',
+                                                                                         'HashSet::<T, S>::with_capacity'))
+                                   for d in defs)
+                ins = [(bi, t) for bi, t in call_sites(b, lambda n: n.endswith('HashSet::<T, S, A>::insert'))
+                       if operand_root(b, t[3][0])[0] == r]
+                if not starts_empty and not ins:
+                    incremental_problem = None if defs else 'cannot see how the dirty set is built'
+                    if not defs:
+                        res.cannot_decide(f'how the dirty set of {b.name} is built', b.loc(at[7]))
+                        continue
+                else:
+                    ins_blocks = {bi for bi, _ in ins}
+                    heads = {h for (_, h) in cfg.back_edges()}
+                    for mbi, mt, f in _map_calls(b, ('::insert', '::remove')):
+                        if f != 'parsed_modules':
+                            continue
+                        covered = True
+                        in_loop = False
+                        for h in heads:
+                            if cfg.can_reach(h, mbi) and cfg.can_reach(mbi, h):
+                                in_loop = True
+                                # a trip h -> M -> h that avoids every dirty insert?
+                                fwd = cfg.reachable(h, removed_nodes=ins_blocks)
+                                if mbi in fwd and h in cfg.reachable(mbi, removed_nodes=ins_blocks - {mbi}) and mbi not in ins_blocks:
+                                    covered = False
+                        if not in_loop and not (cfg.nodes_dominate(ins_blocks, mbi) or cfg.nodes_postdominate(ins_blocks, mbi)):
+                            covered = False
+                        if not covered:
+                            incremental_problem = (f'the module mutated at line {mt[7]} is added to the dirty set only on some paths '
+                                                   f'(the insert into the set is conditional)')
+            if incremental_problem:
+                res.violation(key, b.loc(at[7]), f'{b.name}: {incremental_problem}: when the condition is false the dependants of a '
+                              f'changed module are not rechecked and keep stale diagnostics')
+            elif dirty is None or (mut_comps <= dirty):
                 res.ok(key, b.loc(at[7]), f'dirty set is built from {"whole elements" if dirty is None else "components " + str(sorted(dirty))} '
                        f'of the request, mutation keys use components {sorted(mut_comps) if mut_comps else "(whole element)"}')
             else:
